@@ -362,7 +362,9 @@ func (p *path) addRule(
 		if existing.desc.FullName() != desc.FullName() {
 			return fmt.Errorf("duplicate rule %v", rule)
 		}
-		return nil // Method already registered.
+		// Method already registered for this pattern; the rule's additional
+		// bindings may still be new.
+		return p.addAdditionalBindings(rule, desc, name)
 	}
 
 	m := &method{
@@ -399,6 +401,15 @@ func (p *path) addRule(
 		cursor.methods[verb] = m
 	}
 
+	return p.addAdditionalBindings(rule, desc, name)
+}
+
+// addAdditionalBindings adds the additional bindings of rule to the path.
+func (p *path) addAdditionalBindings(
+	rule *annotations.HttpRule,
+	desc protoreflect.MethodDescriptor,
+	name string,
+) error {
 	for _, addRule := range rule.AdditionalBindings {
 		if len(addRule.AdditionalBindings) != 0 {
 			return fmt.Errorf("nested rules") // TODO: errors...
